@@ -37,7 +37,7 @@ ASSUMPTIONS = [
     "built-in exclusions are the 26 patterns of the pinned commit (Appendix A); exclusion lists are drawn from the six unambiguous gitignore classes (bare name, dir/, *.ext, a/b, a/*, /a)",
     "an exception raised by the analysis of a qualifying file aborts the scan (C03 is about when that can happen)",
 ]
-FORMS = ["abs", "rel", "dot", "dotdot", "dotdot_abs", "sub_dotdot"]
+FORMS = ["abs", "rel", "dot", "dotdot", "dotdot_abs", "sub_dotdot", "link_root", "link_dotdot", "link_sub_dotdot", "link_dotdot_abs"]
 
 
 def regen(ctx):
@@ -71,10 +71,39 @@ def root_argument(T, form, tree):
         return T.work, os.path.join("root", "..", "root")
     if form == "dotdot_abs":
         return T.tmp, os.path.join(T.root, "..", "root")
+    if form.startswith("link_"):
+        return link_root_argument(T, form)
     subs = [c[1] for c in tree[2] if c[0] == "D"]
     if subs:
         return T.work, os.path.join("root", subs[0], "..")
     return T.work, os.path.join("..", "w", "root")
+
+
+def link_root_argument(T, form):
+    """roots spelled through a symbolic link to a directory, with `..` AFTER the link: the root is the directory the
+    operating system reaches (os.path.realpath of the argument), which is not the one a textual removal of `x/..` gives.
+        <tmp>/w/root            the code base            <tmp>/w/pivot/sub       real directories
+        <tmp>/z/lnk -> ../w/pivot                        <tmp>/z/rootlink -> ../w/root
+        <tmp>/z/root/{main.py,decoy.py}                  what `z/lnk/../root` names when read textually (NOT the root)"""
+    z = os.path.join(T.tmp, "z")
+    os.makedirs(os.path.join(T.work, "pivot", "sub"), exist_ok=True)
+    os.makedirs(os.path.join(z, "root", "src"), exist_ok=True)
+    for rel in ("main.py", "decoy.py", os.path.join("src", "util.js")):
+        with open(os.path.join(z, "root", rel), "w") as f:
+            f.write("def decoy(a):\n    return a\n" if rel.endswith(".py") else "function decoy(a) {\n  return a;\n}\n")
+    for name, target in (("lnk", os.path.join("..", "w", "pivot")), ("rootlink", os.path.join("..", "w", "root"))):
+        if not os.path.islink(os.path.join(z, name)):
+            os.symlink(target, os.path.join(z, name))
+    if form == "link_root":
+        cwd, arg = T.tmp, os.path.join("z", "rootlink")
+    elif form == "link_dotdot":
+        cwd, arg = z, os.path.join("lnk", "..", "root")
+    elif form == "link_sub_dotdot":
+        cwd, arg = T.tmp, os.path.join("z", "lnk", "sub", "..", "..", "root")
+    else:
+        cwd, arg = T.work, z + "/lnk/..//root"
+    assert os.path.realpath(os.path.join(cwd, arg)) == os.path.realpath(T.root), (cwd, arg)
+    return cwd, arg
 
 
 def observe(case):
@@ -292,6 +321,17 @@ def _correspond_selection(ctx):
         for r in reasons:
             dist["skip_reasons"][r] = dist["skip_reasons"].get(r, 0) + 1
         dist["files"] += nf; dist["selected"] += ns
+        fl = sr.all_files(sr.tree_from_json(c["tree"]))
+        dist["nested_gitignore_files"] = dist.get("nested_gitignore_files", 0) + sum(1 for f, _ in fl if f[-1] == ".gitignore")
+        dist["names_by_pygments_pool"] = dist.get("names_by_pygments_pool", 0) + sum(
+            1 for f, _ in fl if sr.expected_language(f[-1]) and os.path.splitext(f[-1])[1] not in sr.SUPPORTED_EXT)
+        dist["non_ascii_paths"] = dist.get("non_ascii_paths", 0) + sum(1 for f, _ in fl if any(ord(ch) > 127 for ch in "/".join(f)))
+        import unicodedata
+        seen_nfc = {}
+        for f, _ in fl:
+            seen_nfc.setdefault(unicodedata.normalize("NFC", "/".join(f)), set()).add("/".join(f))
+        dist["nfc_nfd_twin_paths"] = dist.get("nfc_nfd_twin_paths", 0) + sum(1 for v in seen_nfc.values() if len(v) > 1)
+        dist["rewrites_with_old_mtime"] = dist.get("rewrites_with_old_mtime", 0) + sum(1 for op in c.get("mutations", []) if op[0] == "write" and len(op) > 3)
         nl = len(sr.all_links(sr.tree_from_json(c["tree"])))
         dist["trees_with_symlinks"] = dist.get("trees_with_symlinks", 0) + (1 if nl else 0)
         dist["symlinks"] = dist.get("symlinks", 0) + nl
@@ -318,7 +358,7 @@ def _correspond_selection(ctx):
     dist["gitignore_scan"] = gs["counts"]
     return {
         "evaluations": len(cases) + gi["counts"]["cases"] + gs["counts"].get("cases", 0) + gn["counts"]["cases"], "distinct_nontrivial": len(nontrivial) + gi["counts"]["patterns_biting"],
-        "rule": "%d random trees (name pool: hidden .git/.venv/.cache/.hidden.py, built-in excluded tests/test/build/dist/node_modules/venv/_build/buck-out, ordinary src/pkg/a/lib; depth <= 4; supported, unsupported and no extension; Latin-1, malformed, empty contents; a third of the trees with 1-3 symbolic links to files inside the tree - also in hidden / excluded folders - or outside the root) x 0-3 patterns of the 5 gitignore classes x pattern source (option/.codelimit.yml/.gitignore/mixed) x root form (%s) + %d fixed cases; state probe: after the first scan a share of the trees is mutated (a file copied / renamed to another extension in the same or another directory, new possibly empty files, contents swapped or emptied, files deleted) and scanned twice more in the same process - with the first scan's report (written and read back) handed in as cached_report, and from scratch: both must give the entries the property text requires for the mutated tree and agree with each other; non-trivial = distinct (tree, patterns) with at least one selected and one skipped file; PLUS pattern lists of the six classes x exhaustive / random path universes: the Lean pattern model vs Scanner.generate_exclude_spec + is_excluded (decisions, parse classes, generated regular expressions), and scan_path on real trees vs the model's selection (non-trivial there = patterns that exclude at least one path); PLUS %d pattern lists WITH negation lines (`!` + one of the six classes, aimed at a path an earlier line excludes; one source per list) x real trees + path universes: scan_path and generate_exclude_spec/is_excluded judged by the rule that the LAST matching line decides, where %s agrees (%d decisions judged, %d re-included by a `!` line, %d not judged because git decides per directory entry)" % (n, "/".join(FORMS), len(FIXED) + len(FORMS), gn["counts"]["cases"], "the real `git check-ignore`" if gn["counts"]["git"] else "(git not installed: the reading alone)", gn["counts"].get("judged", 0), gn["counts"].get("reincluded", 0), gn["counts"].get("git_differs_not_judged", 0)),
+        "rule": "%d random trees (name pool: hidden .git/.venv/.cache/.hidden.py, built-in excluded tests/test/build/dist/node_modules/venv/_build/buck-out, ordinary src/pkg/a/lib; depth <= 4; supported, unsupported and no extension; Latin-1, malformed, empty contents; a third of the trees with 1-3 symbolic links to files inside the tree - also in hidden / excluded folders - or outside the root) x 0-3 patterns of the 5 gitignore classes x pattern source (option/.codelimit.yml/.gitignore/mixed) x root form (%s) + %d fixed cases; state probe: after the first scan a share of the trees is mutated (a file copied / renamed to another extension in the same or another directory, new possibly empty files, contents swapped or emptied, files deleted) and scanned twice more in the same process - with the first scan's report (written and read back) handed in as cached_report, and from scratch: both must give the entries the property text requires for the mutated tree and agree with each other; non-trivial = distinct (tree, patterns) with at least one selected and one skipped file; round 5: the root is also spelled through a symbolic link to a directory (link_root) and with `..` AFTER such a link (`lnk/../root`, `z/lnk/sub/../../root`, absolute with `//`: the root is what the OS reaches, a decoy tree sits where textual `..` removal would land); a share of the file names comes from the Pygments-derived pool (every extension / whole name of a supported language: x.h, x.hh, x.mjs, x.pyi, BUILD.bazel, SConscript, ...; same-suffix non-sources AUTHORS / NOTICE / defs.bazel next to them), NFC / NFD spellings of one name (often both in one directory, also as directory names) and shell/JSON/pattern-awkward names; sub-directories carry nested .gitignore files whose lines name files beneath them (only the root one counts); rewritten files partly keep or get an OLD modification time before the rescan; PLUS pattern lists of the six classes x exhaustive / random path universes: the Lean pattern model vs Scanner.generate_exclude_spec + is_excluded (decisions, parse classes, generated regular expressions), and scan_path on real trees vs the model's selection (non-trivial there = patterns that exclude at least one path); PLUS %d pattern lists WITH negation lines (`!` + one of the six classes, aimed at a path an earlier line excludes; one source per list) x real trees + path universes: scan_path and generate_exclude_spec/is_excluded judged by the rule that the LAST matching line decides, where %s agrees (%d decisions judged, %d re-included by a `!` line, %d not judged because git decides per directory entry)" % (n, "/".join(FORMS), len(FIXED) + len(FORMS), gn["counts"]["cases"], "the real `git check-ignore`" if gn["counts"]["git"] else "(git not installed: the reading alone)", gn["counts"].get("judged", 0), gn["counts"].get("reincluded", 0), gn["counts"].get("git_differs_not_judged", 0)),
         "samples": [{"form": c["form"], "patterns": c["patterns"], "sources": c["sources"],
                      "keys": [e[0] for e in o[0]["entries"]][:6]} for c, o in list(zip(cases, obs))[:4]],
         "exhaustive": False, "distribution": dist,
